@@ -588,6 +588,31 @@ func (c *c19) runDirty(j *job, kind, srcA, outA, rootFile string, ref *obs, refK
 		}
 		return c.compile(j, srcA, rootFile, "out", outA)
 	}
+	if kind == "out-holds-same-names-other-content" {
+		// every file NAME the compilation emits already exists in the output
+		// directory with other content: empty, truncated or foreign
+		k := 0
+		names := make([]string, 0, len(ref.Tree))
+		for rel := range ref.Tree {
+			names = append(names, rel)
+		}
+		sort.Strings(names)
+		for _, rel := range names {
+			dst := filepath.Join(outA, filepath.FromSlash(rel))
+			os.MkdirAll(filepath.Dir(dst), 0o755)
+			var content []byte
+			switch (k + j.P) % 3 {
+			case 1:
+				b, _ := os.ReadFile(filepath.Join(refKeep, filepath.FromSlash(rel)))
+				content = b[:len(b)/2]
+			case 2:
+				content = []byte("zz foreign content, not generated\n")
+			}
+			os.WriteFile(dst, content, 0o644)
+			k++
+		}
+		return c.compile(j, srcA, rootFile, "out", outA)
+	}
 	xj := *j
 	rootPath := filepath.Join(srcA, rootFile)
 	switch kind {
@@ -1038,7 +1063,7 @@ func (c *c19) plainAlsoDiffers(j *job) bool {
 	return false
 }
 
-var dirtyKinds = []string{"out-holds-other-option-set", "out-holds-revision-with-more-declarations", "out-holds-revision-with-fewer-declarations", "out-holds-handwritten-siblings"}
+var dirtyKinds = []string{"out-holds-other-option-set", "out-holds-revision-with-more-declarations", "out-holds-revision-with-fewer-declarations", "out-holds-handwritten-siblings", "out-holds-same-names-other-content"}
 
 // revisions renders two neighbours of the program's root file: one with a
 // struct, a service and (in .frugal files) a scope added, one with the last
@@ -1155,6 +1180,12 @@ func runC19(tier string) int {
 		}
 		{
 			i, p, src, rootPlus := i, p, src, rootPlus
+			if !run.Thorough() && i%3 == 0 || run.Thorough() && i%4 == 0 {
+				for ti, t := range tgts {
+					t, dir := t, filepath.Join(base, fmt.Sprintf("p%d", i), fmt.Sprintf("clock%d", ti))
+					defout = append(defout, func() { c.runClock(i, p, src, t, dir) })
+				}
+			}
 			inproc = append(inproc, func() {
 				c.runInProcess(i, p, src, rootPlus, tgts, filepath.Join(base, fmt.Sprintf("p%d", i), "inproc"))
 			})
@@ -1162,9 +1193,9 @@ func runC19(tier string) int {
 		// no -out at all: the default output directory, relative to the cwd
 		for ti, t := range tgts {
 			for si, s := range t.Sets {
-				// quick: every option set of the cheap targets, one rotating set for go;
-				// thorough: every option set, every second program
-				if run.Thorough() && i%2 == 1 || !run.Thorough() && t.Name == "go" && si != (i+int(run.Seed))%len(t.Sets) {
+				// every second program; quick: every option set of the cheap targets and
+				// one rotating set for go; thorough: every option set
+				if i%2 == 1 || !run.Thorough() && t.Name == "go" && si != (i+int(run.Seed))%len(t.Sets) {
 					continue
 				}
 				i, p, src, t, s := i, p, src, t, s
@@ -1199,7 +1230,7 @@ func runC19(tier string) int {
 				if t.Name == "html" {
 					altSrc = alt
 				}
-				dirty := []string{dirtyKinds[0], dirtyKinds[1+(i+ti+si)%2], dirtyKinds[3]}
+				dirty := []string{dirtyKinds[0], dirtyKinds[1+(i+ti+si)%2], dirtyKinds[3], dirtyKinds[4]}
 				if run.Thorough() {
 					dirty = dirtyKinds
 					if kreps != reps {
